@@ -2043,6 +2043,11 @@ func HandleMakeAlias(cc *hotline.ClientConn, t *hotline.Transaction) (res []hotl
 		return res
 	}
 
+	// The name the file list shows for a partial upload is taken, as for a rename or a move.
+	if _, err := os.Lstat(fullNewFilePath + hotline.IncompleteFileSuffix); err == nil {
+		return cc.NewErrReply(t, "Error creating alias")
+	}
+
 	if err := cc.Server.FS.Symlink(fullFilePath, fullNewFilePath); err != nil {
 		return cc.NewErrReply(t, "Error creating alias")
 	}
